@@ -56,19 +56,22 @@ CONSTANTS IPs,        \* addresses (their state is disjoint in the code: separat
           Acts,       \* action alphabet of this configuration
           Atomic,     \* TRUE: a handshake runs to completion before anything else happens
           Fixed,      \* subset of {"unban", "unbl", "order"}: repairs present in the code
-          Emit
+          EmitActs,   \* behaviour generation: print the history after every step whose action is in
+                      \* this set ("dev": every step in which a deviation or a violation is recorded;
+                      \* "end": every step that brings the history to length MaxHist); {} = no output
+          MaxHist     \* bound on the length of a history (generation / simulation)
 
 VARIABLES clock,
           fails, total,          \* FailureRecord: Failures (clock values, pruned lazily), TotalCount
           ban, pendUnban,        \* bannedIPs[ip]; number of spawned, not yet run `go UnbanIP(ip)`
           bl, wl, pendUnbl,      \* blacklist[ip], whitelist[ip]; spawned `go RemoveFromBlacklist(ip)`
           bucket,                \* token bucket of anonymous registrations
-          pc, hs, mu,            \* handshake processes; holder of BruteForceProtector.mu across sections
+          pc, hs,                \* handshake processes (goroutines inside HandleHandshake)
           pf, ptot, oblig, allow, blob, adm, viol, dev,   \* ghosts
           hist
-vars == <<clock, fails, total, ban, pendUnban, bl, wl, pendUnbl, bucket, pc, hs, mu,
+vars == <<clock, fails, total, ban, pendUnban, bl, wl, pendUnbl, bucket, pc, hs,
           pf, ptot, oblig, allow, blob, adm, viol, dev, hist>>
-view == <<clock, fails, total, ban, pendUnban, bl, wl, pendUnbl, bucket, pc, hs, mu,
+view == <<clock, fails, total, ban, pendUnban, bl, wl, pendUnbl, bucket, pc, hs,
           pf, ptot, oblig, allow, blob, adm, viol, dev>>
 
 Max2(a, b) == IF a >= b THEN a ELSE b
@@ -100,14 +103,24 @@ Init == /\ clock = 0
         /\ ban = [i \in IPs |-> None] /\ pendUnban = [i \in IPs |-> 0]
         /\ bl = [i \in IPs |-> None] /\ wl = [i \in IPs |-> FALSE] /\ pendUnbl = [i \in IPs |-> 0]
         /\ bucket = [i \in IPs |-> NoBucket]
-        /\ pc = [p \in Procs |-> "idle"] /\ hs = [p \in Procs |-> Idle] /\ mu = "free"
+        /\ pc = [p \in Procs |-> "idle"] /\ hs = [p \in Procs |-> Idle] 
         /\ pf = [i \in IPs |-> <<>>] /\ ptot = [i \in IPs |-> 0]
         /\ oblig = [i \in IPs |-> None] /\ allow = [i \in IPs |-> None] /\ blob = [i \in IPs |-> None]
         /\ adm = [i \in IPs |-> <<>>] /\ viol = {} /\ dev = {}
         /\ hist = <<>>
 
-Log(e) == /\ hist' = Append(hist, e)
-          /\ IF Emit THEN PrintT("BEH " \o ToJson(hist')) ELSE TRUE
+Log(e) == hist' = Append(hist, e)
+
+\* the constants a driver needs to realise a behaviour
+Cfg == [thr |-> Threshold, perm |-> PermAt, win |-> Win, ban |-> Ban, bld |-> BlDur,
+        burst |-> Burst, refill |-> Refill, atomic |-> Atomic, fixed |-> Cardinality(Fixed)]
+\* evaluated after the step (last conjunct of Next): print the new history as one behaviour
+Out == IF EmitActs = {} THEN TRUE
+       ELSE IF \/ hist'[Len(hist')].a \in EmitActs
+               \/ ("dev" \in EmitActs /\ (dev' # dev \/ viol' # viol))
+               \/ ("end" \in EmitActs /\ Len(hist') = MaxHist)
+            THEN PrintT("BEH " \o ToJson([c |-> Cfg, s |-> hist']))
+            ELSE TRUE
 
 Quiet == \A p \in Procs : pc[p] = "idle"
 Free  == Atomic => Quiet          \* guard of everything that is not the continuation of a handshake
@@ -143,13 +156,13 @@ HsGate(p, i, kind) ==
                 /\ hs' = [hs EXCEPT ![p] = [Idle EXCEPT !.ip = i, !.kind = kind]]
            ELSE pc' = pc /\ hs' = hs
         /\ Log([a |-> "Hs", p |-> p, ip |-> i, kind |-> kind, res |-> res])
-  /\ UNCHANGED <<clock, fails, total, ban, bl, wl, mu, pf, ptot, oblig, allow, blob, dev>>
+  /\ UNCHANGED <<clock, fails, total, ban, bl, wl, pf, ptot, oblig, allow, blob, dev>>
 
 \* what the statement demands after a failing handshake that saw cnt failures in the window / tot in total
 Demand(cnt, tot, rc) == IF tot >= PermAt THEN Perm ELSE IF cnt >= Threshold THEN Temp(rc + Ban) ELSE None
 
 HsCred(p) ==
-  /\ pc[p] = "cred" /\ mu = "free"
+  /\ pc[p] = "cred"
   /\ LET i == hs[p].ip IN
      IF hs[p].kind = "Bad"
      THEN \* RecordFailure, `mu` section
@@ -163,19 +176,18 @@ HsCred(p) ==
              /\ fails' = [fails EXCEPT ![i] = fl] /\ total' = [total EXCEPT ![i] = tot]
              /\ pf' = [pf EXCEPT ![i] = npf] /\ ptot' = [ptot EXCEPT ![i] = ntot]
              /\ IF dec = "none"
-                THEN /\ pc' = [pc EXCEPT ![p] = "idle"] /\ hs' = [hs EXCEPT ![p] = Idle] /\ mu' = mu
+                THEN /\ pc' = [pc EXCEPT ![p] = "idle"] /\ hs' = [hs EXCEPT ![p] = Idle]
                      /\ oblig' = [oblig EXCEPT ![i] = Stronger(@, Demand(cnt, ntot, clock))]   \* returns without banning
                      /\ Log([a |-> "Cred", p |-> p, res |-> "fail"])
                 ELSE /\ pc' = [pc EXCEPT ![p] = "ban"]
                      /\ hs' = [hs EXCEPT ![p] = [@ EXCEPT !.dec = dec, !.pcnt = cnt, !.ptot = ntot, !.rc = clock]]
-                     /\ mu' = IF "order" \in Fixed THEN p ELSE mu     \* repaired: decision and ban under one lock
                      /\ oblig' = oblig
                      /\ Log([a |-> "Cred", p |-> p, res |-> "toban"])
      ELSE \* RecordSuccess ("Good": challenge-response passed; "Anon": new anonymous client registered)
           /\ fails' = [fails EXCEPT ![i] = <<>>] /\ total' = [total EXCEPT ![i] = 0]
           /\ pf' = [pf EXCEPT ![i] = <<>>] /\ ptot' = [ptot EXCEPT ![i] = 0]
           /\ pc' = [pc EXCEPT ![p] = "idle"] /\ hs' = [hs EXCEPT ![p] = Idle]
-          /\ UNCHANGED <<mu, oblig>>
+          /\ UNCHANGED <<oblig>>
           /\ Log([a |-> "Cred", p |-> p, res |-> "ok"])
   /\ UNCHANGED <<clock, ban, pendUnban, bl, wl, pendUnbl, bucket, allow, blob, adm, viol, dev>>
 
@@ -189,7 +201,6 @@ HsBan(p) ==   \* banIP under banMu
         /\ dev' = IF over /\ "order" \notin Fixed THEN dev \cup {"tempOverPerm"} ELSE dev
         /\ allow' = IF justified THEN [allow EXCEPT ![i] = Stronger(@, new)] ELSE allow
         /\ oblig' = [oblig EXCEPT ![i] = Stronger(@, Demand(hs[p].pcnt, hs[p].ptot, hs[p].rc))]
-        /\ mu' = IF mu = p THEN "free" ELSE mu
         /\ pc' = [pc EXCEPT ![p] = "idle"] /\ hs' = [hs EXCEPT ![p] = Idle]
         /\ Log([a |-> "Ban", p |-> p, res |-> "fail"])
   /\ UNCHANGED <<clock, fails, total, pendUnban, bl, wl, pendUnbl, bucket, pf, ptot, blob, adm, viol>>
@@ -201,7 +212,7 @@ Query(i) ==
   /\ pendUnban' = [pendUnban EXCEPT ![i] = @ + (IF BanSpawns(i) THEN 1 ELSE 0)]
   /\ viol' = viol \cup Judge(i, IF BlRefuses(i) THEN "yes" ELSE "no", IF BanRefuses(i) THEN "yes" ELSE "no")
   /\ Log([a |-> "Query", ip |-> i, bl |-> BlRefuses(i), ban |-> BanRefuses(i)])
-  /\ UNCHANGED <<clock, fails, total, ban, bl, wl, bucket, pc, hs, mu, pf, ptot, oblig, allow, blob, adm, dev>>
+  /\ UNCHANGED <<clock, fails, total, ban, bl, wl, bucket, pc, hs, pf, ptot, oblig, allow, blob, adm, dev>>
 
 \* ---- the asynchronous removals -------------------------------------------------------------
 AsyncUnban(i) ==
@@ -215,7 +226,7 @@ AsyncUnban(i) ==
           /\ ban' = [ban EXCEPT ![i] = None]
           /\ dev' = IF Live(ban[i]) THEN dev \cup {"unbanLive"} ELSE dev
   /\ Log([a |-> "Unban", ip |-> i, live |-> Live(ban[i])])
-  /\ UNCHANGED <<clock, fails, total, bl, wl, pendUnbl, bucket, pc, hs, mu, pf, ptot, oblig, allow, blob, adm, viol>>
+  /\ UNCHANGED <<clock, fails, total, bl, wl, pendUnbl, bucket, pc, hs, pf, ptot, oblig, allow, blob, adm, viol>>
 
 AsyncUnbl(i) ==
   /\ "Unbl" \in Acts /\ Free /\ pendUnbl[i] > 0
@@ -226,67 +237,77 @@ AsyncUnbl(i) ==
      ELSE /\ bl' = [bl EXCEPT ![i] = None]
           /\ dev' = IF Live(bl[i]) THEN dev \cup {"unblLive"} ELSE dev
   /\ Log([a |-> "Unbl", ip |-> i, live |-> Live(bl[i])])
-  /\ UNCHANGED <<clock, fails, total, ban, pendUnban, wl, bucket, pc, hs, mu, pf, ptot, oblig, allow, blob, adm, viol>>
+  /\ UNCHANGED <<clock, fails, total, ban, pendUnban, wl, bucket, pc, hs, pf, ptot, oblig, allow, blob, adm, viol>>
 
 \* ---- periodic clean-ups ---------------------------------------------------------------------
 CleanF ==   \* cleanup(), failure records (`mu` section)
-  /\ "CleanF" \in Acts /\ Free /\ mu = "free"
+  /\ "CleanF" \in Acts /\ Free
   /\ fails' = [i \in IPs |-> InWin(fails[i])]
   /\ total' = [i \in IPs |-> IF InWin(fails[i]) = <<>> THEN 0 ELSE total[i]]      \* an emptied record is deleted
   /\ ptot'  = [i \in IPs |-> IF InWin(pf[i]) = <<>> THEN 0 ELSE ptot[i]]
   /\ Log([a |-> "CleanF"])
-  /\ UNCHANGED <<clock, ban, pendUnban, bl, wl, pendUnbl, bucket, pc, hs, mu, pf, oblig, allow, blob, adm, viol, dev>>
+  /\ UNCHANGED <<clock, ban, pendUnban, bl, wl, pendUnbl, bucket, pc, hs, pf, oblig, allow, blob, adm, viol, dev>>
 
 CleanB ==   \* cleanup(), expired bans (`banMu` section): permanent and unexpired bans stay
   /\ "CleanB" \in Acts /\ Free
   /\ ban' = [i \in IPs |-> IF Expired(ban[i]) THEN None ELSE ban[i]]
   /\ Log([a |-> "CleanB"])
-  /\ UNCHANGED <<clock, fails, total, pendUnban, bl, wl, pendUnbl, bucket, pc, hs, mu, pf, ptot, oblig, allow, blob, adm, viol, dev>>
+  /\ UNCHANGED <<clock, fails, total, pendUnban, bl, wl, pendUnbl, bucket, pc, hs, pf, ptot, oblig, allow, blob, adm, viol, dev>>
+
+Clean ==    \* one complete cleanup() run: both sections back to back (what the sequential driver can call)
+  /\ "Clean" \in Acts /\ Free
+  /\ fails' = [i \in IPs |-> InWin(fails[i])]
+  /\ total' = [i \in IPs |-> IF InWin(fails[i]) = <<>> THEN 0 ELSE total[i]]
+  /\ ptot'  = [i \in IPs |-> IF InWin(pf[i]) = <<>> THEN 0 ELSE ptot[i]]
+  /\ ban' = [i \in IPs |-> IF Expired(ban[i]) THEN None ELSE ban[i]]
+  /\ Log([a |-> "Clean"])
+  /\ UNCHANGED <<clock, pendUnban, bl, wl, pendUnbl, bucket, pc, hs, pf, oblig, allow, blob, adm, viol, dev>>
 
 CleanL ==   \* IPManager.cleanup()
   /\ "CleanL" \in Acts /\ Free
   /\ bl' = [i \in IPs |-> IF Expired(bl[i]) THEN None ELSE bl[i]]
   /\ Log([a |-> "CleanL"])
-  /\ UNCHANGED <<clock, fails, total, ban, pendUnban, wl, pendUnbl, bucket, pc, hs, mu, pf, ptot, oblig, allow, blob, adm, viol, dev>>
+  /\ UNCHANGED <<clock, fails, total, ban, pendUnban, wl, pendUnbl, bucket, pc, hs, pf, ptot, oblig, allow, blob, adm, viol, dev>>
 
 \* ---- operator actions -----------------------------------------------------------------------
 MUnban(i) ==   \* UnbanIP called by an operator: lifts the ban and, legitimately, the obligation
   /\ "MUnban" \in Acts /\ Free /\ ban[i].k # "none"
   /\ ban' = [ban EXCEPT ![i] = None] /\ oblig' = [oblig EXCEPT ![i] = None]
   /\ Log([a |-> "MUnban", ip |-> i])
-  /\ UNCHANGED <<clock, fails, total, pendUnban, bl, wl, pendUnbl, bucket, pc, hs, mu, pf, ptot, allow, blob, adm, viol, dev>>
+  /\ UNCHANGED <<clock, fails, total, pendUnban, bl, wl, pendUnbl, bucket, pc, hs, pf, ptot, allow, blob, adm, viol, dev>>
 
 Blk(i, kind) ==   \* AddToBlacklist(ip, duration | 0): the latest order replaces the previous one
   /\ kind \in Acts /\ Free
   /\ LET e == IF kind = "BlkP" THEN Perm ELSE Temp(clock + BlDur)
      IN bl' = [bl EXCEPT ![i] = e] /\ blob' = [blob EXCEPT ![i] = e]
   /\ Log([a |-> kind, ip |-> i])
-  /\ UNCHANGED <<clock, fails, total, ban, pendUnban, wl, pendUnbl, bucket, pc, hs, mu, pf, ptot, oblig, allow, adm, viol, dev>>
+  /\ UNCHANGED <<clock, fails, total, ban, pendUnban, wl, pendUnbl, bucket, pc, hs, pf, ptot, oblig, allow, adm, viol, dev>>
 
 MUnbl(i) ==   \* RemoveFromBlacklist called by an operator
   /\ "MUnbl" \in Acts /\ Free /\ bl[i].k # "none"
   /\ bl' = [bl EXCEPT ![i] = None] /\ blob' = [blob EXCEPT ![i] = None]
   /\ Log([a |-> "MUnbl", ip |-> i])
-  /\ UNCHANGED <<clock, fails, total, ban, pendUnban, wl, pendUnbl, bucket, pc, hs, mu, pf, ptot, oblig, allow, adm, viol, dev>>
+  /\ UNCHANGED <<clock, fails, total, ban, pendUnban, wl, pendUnbl, bucket, pc, hs, pf, ptot, oblig, allow, adm, viol, dev>>
 
 SetWl(i, on) ==
   /\ (IF on THEN "Wl" ELSE "UnWl") \in Acts /\ Free /\ wl[i] # on
   /\ wl' = [wl EXCEPT ![i] = on]
   /\ Log([a |-> IF on THEN "Wl" ELSE "UnWl", ip |-> i])
-  /\ UNCHANGED <<clock, fails, total, ban, pendUnban, bl, pendUnbl, bucket, pc, hs, mu, pf, ptot, oblig, allow, blob, adm, viol, dev>>
+  /\ UNCHANGED <<clock, fails, total, ban, pendUnban, bl, pendUnbl, bucket, pc, hs, pf, ptot, oblig, allow, blob, adm, viol, dev>>
 
 Tick ==
   /\ "Tick" \in Acts /\ Free /\ clock < MaxClock
   /\ clock' = clock + 1
   /\ pf' = [i \in IPs |-> SelectSeq(pf[i], LAMBDA t : clock + 1 - t < Win)]
   /\ Log([a |-> "Tick"])
-  /\ UNCHANGED <<fails, total, ban, pendUnban, bl, wl, pendUnbl, bucket, pc, hs, mu, ptot, oblig, allow, blob, adm, viol, dev>>
+  /\ UNCHANGED <<fails, total, ban, pendUnban, bl, wl, pendUnbl, bucket, pc, hs, ptot, oblig, allow, blob, adm, viol, dev>>
 
-Next == \/ \E p \in Procs : \/ \E i \in IPs, k \in {"Bad", "Good", "Anon"} : HsGate(p, i, k)
+Step == \/ \E p \in Procs : \/ \E i \in IPs, k \in {"Bad", "Good", "Anon"} : HsGate(p, i, k)
                             \/ HsCred(p) \/ HsBan(p)
         \/ \E i \in IPs : \/ Query(i) \/ AsyncUnban(i) \/ AsyncUnbl(i) \/ MUnban(i) \/ MUnbl(i)
                           \/ Blk(i, "Blk") \/ Blk(i, "BlkP") \/ SetWl(i, TRUE) \/ SetWl(i, FALSE)
-        \/ CleanF \/ CleanB \/ CleanL \/ Tick
+        \/ CleanF \/ CleanB \/ Clean \/ CleanL \/ Tick
+Next == Len(hist) < MaxHist /\ Step /\ Out
 Spec == Init /\ [][Next]_vars
 
 \* bounds of the explored graph (state constraint)
